@@ -232,6 +232,14 @@ func (c *Ctx) CG() *CallGraph {
 						add(cc.StaticCallee())
 					}
 				}
+				// functions used as values (method values and method expressions are synthetic wrappers)
+				for _, op := range in.Operands(nil) {
+					if op != nil && *op != nil {
+						if fn, ok := (*op).(*ssa.Function); ok {
+							add(fn)
+						}
+					}
+				}
 			}
 		}
 	}
@@ -603,6 +611,24 @@ func (g *CallGraph) analyse(f *ssa.Function) bool {
 						}
 					}
 				}
+				// a value that can only be one of the module's own functions (traced back through
+				// parameters of functions whose callers are all known, captured variables, fields)
+				if targets, ok := g.resolveFuncValue(f, cc.Value, 0, map[ssa.Value]bool{}); ok && len(targets) > 0 {
+					all := true
+					for _, tg := range targets {
+						if g.Sum[tg] == nil {
+							all = false
+						}
+					}
+					if all {
+						for _, tg := range targets {
+							sum.Callees[tg] = true
+							// effects on what the literal captured are accounted for where it is made
+							g.propagateParamsOnly(f, sum, g.Sum[tg], callArgs(cc), ci.Pos())
+						}
+						continue
+					}
+				}
 				// function value
 				sum.FuncVal = true
 				addEff("funcvalue", RootSet{Root{Kind: "unknown", Name: "funcvalue"}: true}, "call of function value "+a.Desc(cc.Value), ci.Pos(), self, "")
@@ -690,6 +716,23 @@ func (g *CallGraph) propagate(f *ssa.Function, sum *Summary, cs *Summary, args [
 			}
 		}
 	}
+}
+
+// propagateParamsOnly: like propagate for a callee reached through a function value: its effects on
+// its parameters and on globals are mapped to the call's arguments; effects on the variables a
+// function literal captured are attributed where the literal is made (propagate at MakeClosure).
+func (g *CallGraph) propagateParamsOnly(f *ssa.Function, sum *Summary, cs *Summary, args []ssa.Value, pos token.Pos) {
+	if cs == nil {
+		return
+	}
+	filtered := &Summary{Effects: map[string]Effect{}, Returns: cs.Returns, Callees: cs.Callees, FuncVal: cs.FuncVal}
+	for k, e := range cs.Effects {
+		if e.Root.Kind == "free" {
+			continue
+		}
+		filtered.Effects[k] = e
+	}
+	g.propagate(f, sum, filtered, args, nil, pos)
 }
 
 // Reach: set of module functions reachable from the given roots (incl. closures created).
